@@ -35,7 +35,7 @@ func TestVerifC20(t *testing.T) {
 	if err := os.Chdir(dir); err != nil { // the tools create their temporary files in "."
 		t.Fatal(err)
 	}
-	n := vk.N(48, 1000)
+	n := vk.N(160, 2000)
 	only := -1
 	if s := os.Getenv("VERIF_ONLY_CASE"); s != "" {
 		fmt.Sscan(s, &only)
